@@ -127,12 +127,18 @@ def check(pid, tier, seed, specs, plan, functions, bounds, assumptions, rule, sl
     by_spec = {}
     for h, item in jobs:
         by_spec.setdefault(item.get("spec", 0), []).append(h)
-    for si, hs in by_spec.items():
+    def run_spec(si_hs):
+        si, hs = si_hs
         sp = specs[si]
         kw = dict(no_default=True, features=ws.FEATURES) if sp.features else {}
-        r = kani.run_many(wsdir, sp.crate, hs, logdir, os.path.join(root, "tk%d" % si), timeout, slots=min(slots, len(hs)),
-                          modpath=sp.modpath, warm=True, **kw)
-        res.update(r)
+        return kani.run_many(wsdir, sp.crate, hs, logdir, os.path.join(root, "tk%d" % si), timeout, slots=min(slots, len(hs)),
+                             modpath=sp.modpath, warm=True, **kw)
+
+    # harness families (specs) have their own target directories: run them side by side
+    from concurrent.futures import ThreadPoolExecutor
+    with ThreadPoolExecutor(max_workers=max(1, len(by_spec))) as ex:
+        for r in ex.map(run_spec, list(by_spec.items())):
+            res.update(r)
     for h, item in jobs:
         r = res[h]
         sp = specs[item.get("spec", 0)]
